@@ -177,6 +177,17 @@ func (g *gen) callOp(m int, s StubInfo, hangP, errP float64) *Op {
 		if g.chance(0.06) {
 			pn.Skip = append([]int(nil), members...)
 		}
+		if g.cfg.Profile == "C06" && s.Kind == "mcast" && !s.ReqEmpty && g.chance(0.35) {
+			for _, si := range members {
+				skipped := false
+				for _, x := range pn.Skip {
+					skipped = skipped || x == si
+				}
+				if !skipped && g.chance(0.4) {
+					pn.Empty = append(pn.Empty, si)
+				}
+			}
+		}
 		op.PerNode = pn
 	}
 	if !s.ReqEmpty {
@@ -222,12 +233,44 @@ func (g *gen) genCore(profile string) {
 	}
 	pool := stubsOf(kinds...)
 	nThreads := 1 + g.r.IntN(3)
+	nswProbe := profile == "C06" && g.cfg.NServers >= 2 && g.chance(0.25)
+	if nswProbe {
+		// no-send-waiting probe: one manager, one thread; one node is down (its address swallows or
+		// refuses connection attempts) and the manager dials with WithBlock, so that connecting to
+		// it takes the whole dial timeout; the first op is a no-send-waiting one-way call
+		g.cfg.NMgrs, nThreads = 1, 1
+		g.cfg.WithBlock = true
+		g.cfg.DialTimeoutMs = pick(g.r, 50, 1000)
+		g.cfg.FaultFree = false
+		down := g.r.IntN(g.cfg.NServers)
+		g.cfg.Down = []int{down}
+		if g.chance(0.5) {
+			g.cfg.Blackhole = []int{down}
+		}
+		g.prog.Configs = g.prog.Configs[:1]
+	}
 	if profile == "C05" {
 		nThreads = 2 + g.r.IntN(3)
 	}
 	for t := 0; t < nThreads; t++ {
 		th := &Thread{Mgr: g.r.IntN(g.cfg.NMgrs)}
 		nOps := 1 + g.r.IntN(6)
+		if nswProbe {
+			th.Mgr = 0
+			ow := stubsOf("mcast", "ucast")
+			s := ow[g.r.IntN(len(ow))]
+			op := g.callOp(0, s, 0, 0)
+			op.Cfg = 0
+			if s.Kind == "ucast" {
+				op.Node = g.cfg.Down[0]
+				op.Plans = map[int]*HandlerPlan{}
+			}
+			if op.PerNode != nil {
+				op.PerNode.Skip, op.PerNode.Empty = nil, nil
+			}
+			op.Ctx, op.NoSendWait, op.FreezeClock = "bg", true, true
+			th.Ops = append(th.Ops, op)
+		}
 		for i := 0; i < nOps; i++ {
 			s := pool[g.r.IntN(len(pool))]
 			if profile == "C06" && !s.PerNode && g.chance(0.5) {
